@@ -3,7 +3,7 @@
    (DefaultWorker._alloc/_dealloc/_request_cb/_result_cb, Master._result_cb/
    _request_cb/_submit_tasks, Worker._dispatch_func etc.), oracle: RP.Raptor.Oracle. *)
 From Coq Require Import ZArith List Bool Permutation.
-From RP Require Import Raptor.Model Raptor.Oracle Raptor.Proofs.
+From RP Require Import Raptor.Model Raptor.Oracle Raptor.Proofs Raptor.Race Raptor.RaceOracle Raptor.RaceProofs.
 Import ListNotations.
 Open Scope Z_scope.
 
@@ -164,6 +164,38 @@ Theorem C20_process_end_reported_once :
 Proof. exact proc_results_once. Qed.
 Print Assumptions C20_process_end_reported_once.
 
+(* The dispatcher / task-process protocol of DefaultWorker._dispatch around
+   the request's timeout (Raptor.Race: the dispatcher's steps start, join,
+   lock, read res_done, is_alive, terminate, join, put, unlock and the task
+   process's steps call-ends, lock, put, set res_done, unlock, exit, as two
+   interleaved parties; the lock makes the dispatcher's check+act atomic).
+   For EVERY schedule -- every interleaving of these steps and every moment at
+   which the timeout expires -- and every way the call ends (returns, raises,
+   leaves the process, never ends; the last only with a timeout): both
+   parties finish, exactly one result is queued, and it is truthful: the
+   call's own result iff the task process queued it (exit code 0 iff the call
+   returned), a time-out only if the process was killed before it reported,
+   'process died' only if it ended by itself without reporting. *)
+Theorem C20_dispatch_protocol_one_truthful_result :
+  forall (p : pay) (timed : bool) (s : list choice),
+    allowed p timed = true ->
+    finished (fst (race p timed s)) = true /\
+    ok_one (c_q (fst (race p timed s))) = true /\
+    forallb (truthful_rk p (snd (race p timed s))) (c_q (fst (race p timed s))) = true.
+Proof. exact race_ok. Qed.
+Print Assumptions C20_dispatch_protocol_one_truthful_result.
+
+(* ... and therefore the worker's result watcher (which dies on a second
+   result for one request) survives: it hands back the raced request and a
+   LATER request, and all cores are free again. *)
+Theorem C20_dispatch_protocol_watcher_survives :
+  forall (p : pay) (timed : bool) (s : list choice),
+    allowed p timed = true ->
+    let '(st, evs, alive) := watcher wst2 (feed (c_q (fst (race p timed s)))) in
+    alive = true /\ returned_uids evs = [1; 2] /\ w_cb st = [false; false] /\ w_pool st = [].
+Proof. exact race_then_watcher. Qed.
+Print Assumptions C20_dispatch_protocol_watcher_survives.
+
 (* The agent scheduler's raptor forwarding loses and duplicates nothing: for
    every history of incoming batches, queue registrations / unregistrations
    and cancel requests, the uids handed to the local scheduler, put on raptor
@@ -222,3 +254,15 @@ Example C20_dispatch_nonvacuous :
      (mkRes (Some [-1; -1; 9]) [] (Some 4) 1 None true,
       [Some 1; None; None; None; None; None], [Some 1; None; None; None; None; None], true)].
 Proof. split; [intros _ k; reflexivity | vm_compute; reflexivity]. Qed.
+
+(* non-vacuity of the protocol theorems: the call returns and reports while
+   the timeout expires; the dispatcher finds res_done set although the task
+   process has not exited yet, and adds nothing (the interleaving at which the
+   code before /repo a0d9f2d queued a second, time-out, result) *)
+Example C20_protocol_nonvacuous :
+  race_show PayReturn true [CD; CT; CT; CX] =
+  ([(PD, RoStart); (PT, RoFn); (PT, RoAcquire); (PD, RoExpire); (PD, RoJoin);
+    (PT, RoPut RReal0); (PT, RoSet); (PT, RoRelease); (PD, RoAcquire);
+    (PD, RoIsSet true); (PD, RoRelease); (PT, RoExit)],
+   [RReal0], true, [1; 2], true, [false; false]).
+Proof. vm_compute. reflexivity. Qed.
